@@ -27,6 +27,7 @@ import (
 	"google.golang.org/grpc"
 	"google.golang.org/grpc/metadata"
 
+	"github.com/openconfig/gnmi/connection"
 	"github.com/openconfig/gnmi/manager"
 	gpb "github.com/openconfig/gnmi/proto/gnmi"
 	tpb "github.com/openconfig/gnmi/proto/target"
@@ -36,8 +37,11 @@ import (
 // ---------------------------------------------------------------------------
 // case description
 
-// Stream is one scripted stream: Msgs is a string over u (update) s (sync)
-// e (error response) n (nil response) w (3 ms pause before the next answer);
+// Stream is one scripted stream: Msgs is a string over u (update without a
+// prefix) o p q (update whose prefix.target is the target's OWN name / the name
+// of the NEXT target of the case, managed or already removed / a name nobody
+// manages) s (sync) e (error response) n (nil response) w (3 ms pause before
+// the next answer);
 // End is what Recv does afterwards: err, eof, or hang (block until the
 // stream's context is done).
 type Stream struct {
@@ -58,6 +62,11 @@ type TargetSpec struct {
 	Open      []bool   `json:"open,omitempty"`
 	Send      []bool   `json:"send,omitempty"`
 	Streams   []Stream `json:"streams,omitempty"`
+	// Dialers[k] is the dialer name in the target's configuration for its k-th
+	// incarnation (last entry repeated; none = default dialer).  Only the
+	// real-connection-manager family knows dialer names: "" and "alt" exist,
+	// anything else is an unknown dialer.
+	Dialers []string `json:"dialers,omitempty"`
 	// Gate: the N-th callback of kind Cb (Connect Update Sync Reset CE ME) for
 	// this name blocks until the harness releases it (op "overlap").
 	Gate *Gate `json:"gate,omitempty"`
@@ -86,6 +95,10 @@ type Op struct {
 type Case struct {
 	Family       string       `json:"family"`
 	MgrTimeoutMs int          `json:"mgr_timeout_ms"` // Config.ReceiveTimeout
+	// RealCM: the Manager runs on the real connection.Manager (scripted
+	// dialers "" and "alt"; targets share the address strings) instead of the
+	// injected one.
+	RealCM bool `json:"real_cm,omitempty"`
 	// CbDelayUs > 0: every callback takes that long (a callback is logged when
 	// it RETURNS, so a callback still running after Remove returned is seen).
 	CbDelayUs int `json:"cb_delay_us,omitempty"`
@@ -126,6 +139,9 @@ type tgt struct {
 	iSend     int
 	iStream   int
 	nUpd      int64
+
+	peer  string // name of the next target of the case ("" if alone)
+	incar int    // Add calls so far (selects the dialer name)
 
 	gateCount  int           // occurrences of the gated callback kind so far
 	gateClosed bool          // the gated callback is being held
@@ -203,6 +219,105 @@ func (connMgr) Connection(ctx context.Context, addr, dialer string) (*grpc.Clien
 		return nil, func() {}, errors.New("refused")
 	}
 	return nil, func() { t.ev("done", true) }, nil
+}
+
+// --- the real connection.Manager, recorded ------------------------------------
+
+type span struct{ start, end time.Time } // end zero = still in flight
+
+// realCM wraps connection.Manager: the answer of Connection() is logged as the
+// dial letter of the calling target; the dialers are scripted (the dial tape of
+// the target whose call started the dial).  An error is "stale" when nothing
+// that happened around the call explains it: the caller's dialer exists, its
+// context is alive, the error is not that of a scripted dial which failed
+// recently, and no call with an unknown dialer on that address was in flight.
+type realCM struct {
+	cm  *connection.Manager
+	mu  sync.Mutex
+	unk map[string][]*span
+}
+
+// dialErr is the error of one failed scripted dial.  connection.Manager hands
+// it to every caller that joined that dial and then forgets the entry; the
+// forgetting follows the failure at once, so a caller that STARTS long after
+// the failure and still gets this very error has been served a stale entry.
+type dialErr struct{ at time.Time }
+
+func (*dialErr) Error() string { return "refused" }
+
+const staleAfter = 2 * time.Second
+
+func newRealCM() *realCM {
+	r := &realCM{unk: map[string][]*span{}}
+	cm, err := connection.NewManagerCustom(map[string]connection.Dial{connection.DEFAULT: r.dial, "alt": r.dial})
+	if err != nil {
+		vh.Die("connection.NewManagerCustom: %v", err)
+	}
+	r.cm = cm
+	return r
+}
+
+func (r *realCM) dial(ctx context.Context, addr string, _ ...grpc.DialOption) (*grpc.ClientConn, error) {
+	ok := true
+	if t := lookup(nameOf(ctx)); t != nil {
+		t.mu.Lock()
+		ok = tape(t.spec.Dial, &t.iDial)
+		t.mu.Unlock()
+	} else {
+		atomic.AddInt64(&strays, 1)
+	}
+	if !ok {
+		return nil, &dialErr{at: time.Now()}
+	}
+	return nil, nil // the stream stub never looks at the connection
+}
+
+func (r *realCM) explained(addr string, start, end time.Time, err error) bool {
+	if de, ok := err.(*dialErr); ok {
+		return start.Sub(de.at) <= staleAfter
+	}
+	r.mu.Lock()
+	defer r.mu.Unlock()
+	for _, sp := range r.unk[addr] {
+		if !sp.start.After(end) && (sp.end.IsZero() || !sp.end.Before(start)) {
+			return true
+		}
+	}
+	return false
+}
+
+func (r *realCM) Connection(ctx context.Context, addr, dialer string) (*grpc.ClientConn, func(), error) {
+	t := lookup(nameOf(ctx))
+	if t == nil {
+		atomic.AddInt64(&strays, 1)
+		return nil, func() {}, errors.New("unknown target")
+	}
+	known := dialer == connection.DEFAULT || dialer == "alt"
+	start := time.Now()
+	var sp *span
+	if !known {
+		sp = &span{start: start}
+		r.mu.Lock()
+		r.unk[addr] = append(r.unk[addr], sp)
+		r.mu.Unlock()
+	}
+	conn, done, err := r.cm.Connection(ctx, addr, dialer)
+	end := time.Now()
+	if sp != nil {
+		r.mu.Lock()
+		sp.end = end
+		r.mu.Unlock()
+	}
+	if err == nil {
+		t.ev("dial+", true)
+		return conn, func() { done(); t.ev("done", true) }, nil
+	}
+	t.ev("dial-", true)
+	if known && ctx.Err() == nil && !r.explained(addr, start, end, err) {
+		// the endpoint and the dialer are fine, nothing failed: a stale error
+		t.ev("stall", false)
+	}
+	return nil, func() {}, err
 }
 
 // --- CredentialsClient ------------------------------------------------------
@@ -298,13 +413,26 @@ func (s *stream) Recv() (*gpb.SubscribeResponse, error) {
 			case <-time.After(3 * time.Millisecond):
 			}
 			continue
-		case 'u':
+		case 'u', 'o', 'p', 'q':
 			s.t.mu.Lock()
 			s.t.nUpd++
 			n := s.t.nUpd
 			s.t.mu.Unlock()
+			no := &gpb.Notification{Timestamp: n}
+			switch c {
+			case 'o':
+				no.Prefix = &gpb.Path{Target: s.t.name}
+			case 'p':
+				if s.t.peer != "" {
+					no.Prefix = &gpb.Path{Target: s.t.peer}
+				} else {
+					no.Prefix = &gpb.Path{Target: "nobody"}
+				}
+			case 'q':
+				no.Prefix = &gpb.Path{Target: "nobody"}
+			}
 			s.t.ev(fmt.Sprintf("recv:u%d", n), true)
-			return &gpb.SubscribeResponse{Response: &gpb.SubscribeResponse_Update{Update: &gpb.Notification{Timestamp: n}}}, nil
+			return &gpb.SubscribeResponse{Response: &gpb.SubscribeResponse_Update{Update: no}}, nil
 		case 's':
 			s.t.ev("recv:s", true)
 			return &gpb.SubscribeResponse{Response: &gpb.SubscribeResponse_SyncResponse{SyncResponse: true}}, nil
@@ -488,6 +616,10 @@ func gapsOf(log []string, at []time.Time) []int64 {
 
 func runCase(c Case, window time.Duration) ([][]string, [][]int64) {
 	seq := atomic.AddInt64(&caseSeq, 1)
+	var cmgr manager.ConnectionManager = connMgr{}
+	if c.RealCM {
+		cmgr = newRealCM()
+	}
 	m, err := manager.NewManager(manager.Config{
 		Connect:           func(n string) { cb(n, "Connect") },
 		Reset:             func(n string) { cb(n, "Reset") },
@@ -496,7 +628,7 @@ func runCase(c Case, window time.Duration) ([][]string, [][]int64) {
 		ConnectError:      func(n string, _ error) { cb(n, "CE") },
 		MonitorError:      func(n string, _ error) { cb(n, "ME") },
 		Credentials:       creds{},
-		ConnectionManager: connMgr{},
+		ConnectionManager: cmgr,
 		ReceiveTimeout:    time.Duration(c.MgrTimeoutMs) * time.Millisecond,
 	})
 	if err != nil {
@@ -509,6 +641,9 @@ func runCase(c Case, window time.Duration) ([][]string, [][]int64) {
 		t.cbDelay = time.Duration(c.CbDelayUs) * time.Microsecond
 		t.cond = sync.NewCond(&t.mu)
 		t.gateCh = make(chan struct{})
+		if len(c.Targets) > 1 {
+			t.peer = fmt.Sprintf("c%d-t%d", seq, (i+1)%len(c.Targets))
+		}
 		ts[i] = t
 		registry.Store(t.name, t)
 	}
@@ -561,6 +696,14 @@ func protoTarget(t *tgt) *tpb.Target {
 	if t.spec.TimeoutMs > 0 {
 		p.Meta = map[string]string{"receive_timeout": fmt.Sprintf("%dms", t.spec.TimeoutMs)}
 	}
+	if n := len(t.spec.Dialers); n > 0 {
+		k := t.incar
+		if k >= n {
+			k = n - 1
+		}
+		p.Dialer = t.spec.Dialers[k]
+	}
+	t.incar++
 	return p
 }
 
@@ -923,6 +1066,62 @@ func overlapCases() []Case {
 	return out
 }
 
+// realCMCases: the Manager on the real connection.Manager.
+func realCMCases() []Case {
+	var out []Case
+	good := []Stream{{"us", "eof"}, {"ou", "hang"}, {"s", "err"}}
+	// an unknown dialer name in the configuration, fixed when the target is added again
+	for _, at := range []int{2, 3, 4, 6, 8} {
+		out = append(out, Case{Family: "realcm", RealCM: true,
+			Targets: []TargetSpec{{Hops: 1, Dialers: []string{"bogus", ""}, Streams: good}},
+			Ops:     []Op{{T: 0, At: at, K: "readd"}}})
+		out = append(out, Case{Family: "realcm", RealCM: true,
+			Targets: []TargetSpec{{Hops: 1, Dialers: []string{"bogus", "alt"}, Dial: []bool{false, true}, Streams: good}},
+			Ops:     []Op{{T: 0, At: at, K: "readd"}}})
+	}
+	// two targets on one address: one with an unknown dialer (removed after a while), one fine
+	for _, at := range []int{2, 4, 6, 10} {
+		out = append(out, Case{Family: "realcm", RealCM: true,
+			Targets: []TargetSpec{
+				{Hops: 1, Dialers: []string{"bogus"}},
+				{Hops: 1, Dial: []bool{false, false, false, true, true, true}, Streams: good}},
+			Ops: []Op{{T: 0, At: at, K: "remove"}}})
+		out = append(out, Case{Family: "realcm", RealCM: true,
+			Targets: []TargetSpec{
+				{Hops: 1, Dialers: []string{"bogus", "alt"}, Streams: []Stream{{"u", "eof"}}},
+				{Hops: 1, Dialers: []string{"alt"}, Dial: []bool{false, true, false, true}, Streams: good}},
+			Ops: []Op{{T: 0, At: at, K: "readd"}, {T: 1, At: at + 3, K: "reconnect"}}})
+	}
+	// dial failures followed by success, one and two hops, shared address, both dialers
+	for _, hops := range []int{1, 2} {
+		for _, d := range []string{"", "alt"} {
+			out = append(out, Case{Family: "realcm", RealCM: true,
+				Targets: []TargetSpec{
+					{Hops: hops, Dialers: []string{d}, Dial: []bool{false, false, true, false, true}, Streams: good},
+					{Hops: 1, Dial: []bool{true, false, true}, Streams: []Stream{{"psq", "eof"}, {"u", "hang"}}}},
+				Ops: []Op{{T: 0, At: 9, K: "reconnect"}, {T: 1, At: 5, K: "readd"}}})
+		}
+	}
+	return out
+}
+
+// prefixCases: updates labelled with another name (managed, removed, unknown).
+func prefixCases() []Case {
+	var out []Case
+	lab := []Stream{{"opqu", "eof"}, {"psou", "hang"}, {"qp", "err"}}
+	for _, at := range []int{0, 3, 8, 14} {
+		// the labelled name is removed early / at some point / stays managed
+		out = append(out, Case{Family: "prefix",
+			Targets: []TargetSpec{{Hops: 1, Streams: lab}, {Hops: 1, Streams: []Stream{{"us", "hang"}}}},
+			Ops:     []Op{{T: 1, At: at, K: "remove"}}})
+		out = append(out, Case{Family: "prefix",
+			Targets: []TargetSpec{{Hops: 1, Streams: lab}, {Hops: 1, Dial: []bool{false, false}, Streams: []Stream{{"pu", "eof"}}}},
+			Ops:     []Op{{T: 0, At: at, K: "reconnect"}}})
+	}
+	out = append(out, Case{Family: "prefix", Targets: []TargetSpec{{Hops: 1, Streams: lab}}})
+	return out
+}
+
 func randSpec(r *vh.Rand) TargetSpec {
 	sp := TargetSpec{Hops: 1 + r.Pick(6, 3, 1), Creds: r.Chance(1, 4)}
 	if r.Chance(1, 4) {
@@ -943,7 +1142,7 @@ func randSpec(r *vh.Rand) TargetSpec {
 		var b strings.Builder
 		k := r.Pick(3, 3, 2, 2, 1, 1)
 		for j := 0; j < k; j++ {
-			b.WriteByte("uuuusssenw"[r.Intn(10)])
+			b.WriteByte("uuuopqsssenw"[r.Intn(12)])
 		}
 		end := []string{"err", "eof", "hang"}[r.Pick(4, 4, 2)]
 		sp.Streams = append(sp.Streams, Stream{b.String(), end})
@@ -959,6 +1158,7 @@ func randCase(r *vh.Rand) Case {
 	if r.Chance(1, 3) {
 		c.CbDelayUs = 100 + 100*r.Intn(4)
 	}
+	c.RealCM = r.Chance(1, 6)
 	nt := 1 + r.Pick(5, 3, 2)
 	for i := 0; i < nt; i++ {
 		c.Targets = append(c.Targets, randSpec(r.Fork()))
@@ -970,6 +1170,16 @@ func randCase(r *vh.Rand) Case {
 			at += r.Intn(14)
 			k := []string{"reconnect", "readd", "remove", "add"}[r.Pick(5, 3, 2, 2)]
 			c.Ops = append(c.Ops, Op{T: i, At: at, K: k})
+		}
+		if c.RealCM {
+			switch r.Pick(3, 2, 2) {
+			case 1:
+				c.Targets[i].Dialers = []string{"alt"}
+			case 2:
+				// unknown dialer first: the target can only get on once it is added again
+				c.Targets[i].Dialers = []string{"bogus", []string{"", "alt"}[r.Intn(2)]}
+				c.Ops = append(c.Ops, Op{T: i, At: at + 2 + r.Intn(8), K: "readd"})
+			}
 		}
 		if r.Chance(1, 5) {
 			cbk := []string{"Connect", "Update", "Sync", "Reset", "CE", "ME"}[r.Intn(6)]
@@ -1165,7 +1375,7 @@ func main() {
 	manager.RetryRandomization = 0.5
 	manager.VerifSetSubscribeClient(openStream)
 
-	meta := vh.NewMeta("corpus cases; systematic family: single-target fault scripts (dial refusal, credentials / open / send failure, multi-hop, data then error / EOF, hang with and without receive timeout, slow live stream; seven single-target fault scripts in all, the seventh with a receive timer that is armed but cannot expire), each alone and with one Reconnect, one Remove and one Remove+Add placed at every position (quick: every second position of long logs) of the script's baseline log, a third of them with slow callbacks (a callback is logged when it returns); overlap family: two scripts x a held callback (each kind, first or second occurrence) x {Add, Remove, Reconnect} of the same name issued by a second goroutine while the first one's Remove is in progress (observed waiting inside Manager.Remove), a fifth of the random cases get such an action too; random family: 1-3 targets per manager (shared addresses), 1-6 scripted attempts each, 0-4 control actions (Reconnect, Remove, Add, Remove+Add) at random log positions, receive timeout none / 12 ms / far away, callbacks instantaneous or 100-400 us. distinct = distinct (scripts, actions); non-trivial = some target's log has a Reset and a ConnectError")
+	meta := vh.NewMeta("corpus cases; systematic family: single-target fault scripts (dial refusal, credentials / open / send failure, multi-hop, data then error / EOF, hang with and without receive timeout, slow live stream; seven single-target fault scripts in all, the seventh with a receive timer that is armed but cannot expire), each alone and with one Reconnect, one Remove and one Remove+Add placed at every position (quick: every second position of long logs) of the script's baseline log, a third of them with slow callbacks (a callback is logged when it returns); overlap family: two scripts x a held callback (each kind, first or second occurrence) x {Add, Remove, Reconnect} of the same name issued by a second goroutine while the first one's Remove is in progress (observed waiting inside Manager.Remove), a fifth of the random cases get such an action too; prefix family: updates whose prefix.target is the owner's name, another managed name, a removed name or an unknown name; realcm family: the Manager on the real connection.Manager with scripted dialers (unknown dialer name fixed on re-add, two targets sharing an address one of them with an unknown dialer, dial failures then success), a sixth of the random cases run on it too, an error that nothing during the call explains is reported as a stall; random family: 1-3 targets per manager (shared addresses), 1-6 scripted attempts each, 0-4 control actions (Reconnect, Remove, Add, Remove+Add) at random log positions, receive timeout none / 12 ms / far away, callbacks instantaneous or 100-400 us. distinct = distinct (scripts, actions); non-trivial = some target's log has a Reset and a ConnectError")
 	meta.Samples = []interface{}{} // never null in meta.json
 	window := 30 * time.Millisecond
 	par := 8
@@ -1253,6 +1463,19 @@ func main() {
 	}
 	e.runAll(ov, par)
 	meta.Extra["overlap_cases"] = len(ov)
+
+	// updates labelled with other names; the real connection manager
+	px := prefixCases()
+	rc := realCMCases()
+	if o.Thorough() {
+		px = append(px, prefixCases()...)
+		rc = append(rc, realCMCases()...)
+		rc = append(rc, realCMCases()...)
+	}
+	e.runAll(px, par)
+	e.runAll(rc, par)
+	meta.Extra["prefix_cases"] = len(px)
+	meta.Extra["realcm_cases"] = len(rc)
 
 	// random
 	r := vh.NewRand(o.Seed)
